@@ -1,7 +1,7 @@
 (* C10: s2m lists each record's runs; m2s is its exact inversion; independent of the interleaving. *)
 From Coq Require Import NArith ZArith List.
 From KT Require Import Gen.Generated Gen.Alphabet Gen.GeneratedFacts Model.Kmer Model.Ops Model.Rows Model.Pipeline.
-From KT Require Import Proof.ItemsSched Proof.ItemsTrace Proof.MinAbs Proof.MinSpec Proof.MinConc Proof.MinExt.
+From KT Require Import Proof.ItemsSched Proof.ItemsTrace Proof.MinAbs Proof.MinSpec Proof.MinConc Proof.MinExt Proof.FileSpecProof.
 Import ListNotations.
 Open Scope N_scope.
 
@@ -38,6 +38,19 @@ Proof.
   exact (table_ok_spec table_minimiser table_minimiser_ok).
 Qed.
 
+(* both outputs of the model are the specified ones: one s2m line per record with its spec runs as text; one m2s
+   line per distinct minimiser text listing exactly the (record, start, end) entries that s2m attributes to it *)
+Theorem C10_outputs_are_the_specified_ones :
+  forall w m recs, (1 <= m)%nat -> (m <= 31)%nat -> (w = 0 \/ m <= w)%nat ->
+  Forall (Forall (fun b => 4 <= b < 256)) recs ->
+  m_s2m w m recs = s_s2m w m recs /\ m_m2s w m recs = s_m2s w m recs.
+Proof.
+  intros w m recs H1 H2 Hw Hr.
+  assert (D : decodes nt4m recs).
+  { revert Hr. apply Forall_impl. intros s. apply Forall_impl. intros b Hb. exact (table_ok_spec table_minimiser table_minimiser_ok b Hb). }
+  split; [exact (s2m_model_spec w m H1 H2 Hw recs letters_ok D)|exact (m2s_model_spec w m H1 H2 Hw recs letters_ok D)].
+Qed.
+
 Example C10_example :
   m_s2m 0 2 [[65;67;71;84]; [67]] = s_s2m 0 2 [[65;67;71;84]; [67]] /\ m_m2s 3 2 [[65;67;71;84;65]; [67;67;65;67]] = s_m2s 3 2 [[65;67;71;84;65]; [67;67;65;67]].
 Proof. vm_compute. split; reflexivity. Qed.
@@ -45,3 +58,4 @@ Proof. vm_compute. split; reflexivity. Qed.
 Print Assumptions C10_items_exact_every_interleaving.
 Print Assumptions C10_items_exact_for_the_real_steps.
 Print Assumptions C10_record_runs_are_spec_runs.
+Print Assumptions C10_outputs_are_the_specified_ones.
